@@ -485,7 +485,7 @@ def catchment_cases(rng, quick):
     ratios = [2., 1., 0.5] if quick else [3., 2., 1., 0.5, 0.25, 0.1]
     for ti, (name, nr, nc, fd, outlet, inlets, ncells) in enumerate(tops):
         for gi, (csz, xll, yll) in enumerate(((1., 0., 0.), (0.25, 10.5, -3.))):
-            if gi and quick and ti % 3:
+            if gi and quick and ti % 4:
                 continue
             cat = f"mkcat({nr}, {nc}, {fd!r}, {csz!r}, {xll!r}, {yll!r})"
             inl = "" if inlets is None else f", {inlets!r}"
@@ -525,7 +525,7 @@ def catchment_cases(rng, quick):
             # and the differences: the area is replaced, the filled area is the first operand's
             o2 = next((i for i, x in enumerate(fd) if x and i != outlet), outlet)
             two = pre + f"b = {cat}; b.delineate_area({o2}); "
-            for expr in ("c + b", "c - b", "b - c", "b + c"):
+            for expr in (rng.sample(["c + b", "c - b", "b - c", "b + c"], 2) if quick else ("c + b", "c - b", "b - c", "b + c")):
                 for filled in (False, True):
                     C.append(("intersect", two + f"d = {expr}; d.intersect({gh}, filled={filled})"))
                 C.append(("delineate_boundary", two + f"d = {expr}; d.delineate_boundary(); d.extent()"))
